@@ -74,6 +74,24 @@ def walks(tier, seed):
     return out
 
 
+TRAPS = ["Trap_Heap_deep3", "Trap_Heap_deep", "Trap_Heap_cell", "Trap_Heap_chan", "Trap_Heap_vm"]
+
+
+def trap_walks(tier, seed):
+    """shortest walks into the scenario traps of Heap.tla (TLC breadth-first search, one walk per trapped state)"""
+    out = {}
+    import random
+    rnd = random.Random(seed)
+    for cfg in TRAPS:
+        r = vlib.run_tlc("Heap", cfg, workers=12, timeout=900, print_prefix='"WALK"', xss="256m")
+        ws = [h for h in (vlib.tlc_value_to_json(l) for l in r.prints) if h]
+        cap = 400 if tier == "quick" else 5000
+        if len(ws) > cap:
+            ws = rnd.sample(ws, cap)
+        out[cfg] = ws
+    return out
+
+
 def route_class(walk):
     """(routes used, tree shape, whether a copy was made): the coverage classes of a walk"""
     cls = set()
@@ -119,7 +137,7 @@ def value_features(walk, step):
     return "acyclic"
 
 
-def replay(walk_list, stress=0):
+def replay(walk_list, stress=0, epilogue=False):
     seen = set()
     jobs = []
     for w in walk_list:
@@ -127,7 +145,7 @@ def replay(walk_list, stress=0):
         if k in seen:
             continue
         seen.add(k)
-        jobs.append({"id": len(jobs), "walk": w, "max_thr": 4, "stress": stress})
+        jobs.append({"id": len(jobs), "walk": w, "max_thr": 4, "stress": stress, "epilogue": epilogue})
     res = vlib.run_pool(["heap"], jobs, workers=14, job_timeout=6)
     return jobs, res
 
@@ -147,11 +165,13 @@ def run_common(pid, tier, mine, level_text_extra=""):
     jobs, res = replay(ws, stress=0)
     # a second pass of a part of the walks with a collection forced at every allocation check
     jobs2, res2 = replay(ws[: max(200, len(ws) // 4)], stress=1)
-    vlib.log("[heap] %d walks generated, %d + %d replayed, total %.0fs" % (len(ws), len(jobs), len(jobs2), time.time() - t0))
+    tw = trap_walks(tier, seed)
+    jobs3, res3 = replay([w for ws_ in tw.values() for w in ws_], stress=0, epilogue=True)
+    vlib.log("[heap] %d walks generated, %d + %d replayed, %d trap walks (%s), total %.0fs" % (len(ws), len(jobs), len(jobs2), len(jobs3), {k: len(v) for k, v in tw.items()}, time.time() - t0))
     classes = set()
     nontrivial = 0
     replayed = 0
-    for js, rs, tag in ((jobs, res, ""), (jobs2, res2, "stress1:")):
+    for js, rs, tag in ((jobs, res, ""), (jobs2, res2, "stress1:"), (jobs3, res3, "trap:")):
         for j in js:
             r = rs.get(j["id"])
             if r is None:
@@ -175,6 +195,8 @@ def run_common(pid, tier, mine, level_text_extra=""):
                 continue
             for key, text, step in r.get("violations", []):
                 kcls = key.split(":")[1] if ":" in key else key
+                if key.startswith("epilogue-collect:"):
+                    kcls = key.split(":", 1)[1]
                 relevant = kcls.startswith(mine) or not (kcls.startswith(C05_KEYS) or kcls.startswith(C13_KEYS))
                 if relevant:
                     V.violation(tag + key, "%s (step %d of the walk)" % (text, step), {"walk": j["walk"], "stress": j["stress"], "step": step})
@@ -188,7 +210,7 @@ def run_common(pid, tier, mine, level_text_extra=""):
         "samples": samples,
         "evaluations": replayed, "distinct_nontrivial": len(classes),
         "rule": "TLC -simulate walks of Heap.tla (14 steps, 6 objects, 4 threads, 2 VMs%s) replayed on real VMs, each also under collect-at-every-allocation for a quarter of them; distinct_nontrivial counts distinct (transfer route, copy-or-share, thread tree shape) classes in which a value crossed heaps" % ("; 30 steps / 8 objects in the long runs" if tier == "thorough" else ""),
-        "walks_with_transfer": nontrivial,
+        "walks_with_transfer": nontrivial, "trap_walks": {k: len(v) for k, v in tw.items()},
         "model_configs": info,
         "spec_mutants_rejected_by": mut,
         "exhaustive": False,
@@ -206,7 +228,7 @@ def replay_file(pid, path):
         print("model-level violation; see the trace in the replay file")
         print("VIOLATION property=%s replay=%s" % (pid, path))
         return 1
-    res = vlib.run_pool(["heap"], [{"id": 0, "walk": d["walk"], "max_thr": 4, "stress": d.get("stress", 0)}], workers=1, job_timeout=60)
+    res = vlib.run_pool(["heap"], [{"id": 0, "walk": d["walk"], "max_thr": 4, "stress": d.get("stress", 0), "epilogue": True}], workers=1, job_timeout=60)
     r = res[0]
     print(json.dumps(r, indent=1)[:3000])
     if r["status"] != "ok" or r.get("violations"):
